@@ -111,19 +111,20 @@ let sem_completion (e : Sexp.t) : Sexp.t =
           | [ (a, b) ] -> Semlib.window_of ~max_ints:a ~max_syms:b t
           | (a, b) :: rest ->
             let w = Semlib.window_of ~max_ints:a ~max_syms:b t in
-            if cost w < 3e4 then w else pick rest
+            if cost w < 2e5 then w else pick rest
           | [] -> assert false in
         pick cands in
-      if cost w > 3e5 then L [ A "ok"; A "0" ]
+      if cost w > 3e6 then L [ A "ok"; A "0"; A "too-expensive" ]
       else begin
         let w2 = Semlib.window_of ~max_ints:(2 * List.length w.w_ints) ~max_syms:(2 * List.length w.w_syms) t in
         let vals = Semlib.take 4 (Semlib.shuffle st (Semlib.general_values w)) in
         let atoms = Semlib.ground_atoms st preds vals 10 in
-        let count = ref 0 and result = ref None and artefacts = ref 0 in
+        let count = ref 0 and result = ref None and artefacts = ref 0 and both_true = ref 0 in
         let check fi i =
           if !result = None then begin
             incr count;
             let a = lhs w fi i and b = rhs w fi i in
+            if a && b then incr both_true;
             if a <> b then begin
               let a2 = lhs w2 fi i and b2 = rhs w2 fi i in
               if a2 <> b2 then
@@ -164,7 +165,7 @@ let sem_completion (e : Sexp.t) : Sexp.t =
         done;
         match !result with
         | Some r -> r
-        | None -> L [ A "ok"; A (string_of_int !count) ]
+        | None -> L [ A "ok"; A (string_of_int !count); A (string_of_int !both_true); A (string_of_int !artefacts) ]
       end
     end
   | L [ _; L [ A "panic" ] ] -> L [ A "cex"; L [ A "completion-panicked" ] ]
